@@ -361,6 +361,7 @@ def VectorBasis(rottype, eigenvect):
     if rottype == 1: return (3, np.zeros(3))  # sphere (identity)
     if rottype == -2: return (0, np.zeros(3))  # point (inversion)
     if rottype == -1: return (2, eigenvect[0])  # plane (pure mirror)
+    if rottype < -2: return (0, np.zeros(3))  # point (rotoreflection: the axis is reversed)
     return (1, eigenvect[0])  # line (all others--there's a rotation axis involved
 
 
